@@ -169,10 +169,10 @@ pub fn run(ctx: &'static Ctx) {
     // position around the cut, for every total length around the capacity (a name that exactly
     // fits must come back unchanged, whatever its last character is)
     {
-        let marks = [' ', '\t', '\n', '\u{a0}', '\u{2003}', '\u{3000}', '\u{200b}', '\u{200d}', '\u{feff}', '.', '/', '\u{0}', '\u{7f}', '\u{85}'];
+        let marks: Vec<String> = [" ", "\t", "\n", "\r", "\r\n", "\n\r", "\u{a0}", "\u{2003}", "\u{3000}", "\u{200b}", "\u{200d}", "\u{feff}", ".", "/", "\u{0}", "\u{7f}", "\u{85}", "\u{1b}[", "\\n", "%0"].iter().map(|s| s.to_string()).collect();
         let mut texts: Vec<String> = Vec::new();
-        for c in marks {
-            let cl = c.len_utf8();
+        for c in &marks {
+            let cl = c.len();
             for total in 56..=72usize {
                 texts.push(format!("{}{}", "x".repeat(total - cl), c));
                 texts.push(format!("{}{}", c, "x".repeat(total - cl)));
@@ -191,7 +191,7 @@ pub fn run(ctx: &'static Ctx) {
         texts.dedup();
         let slots_all: Vec<&Slot> = name_slots.iter().collect();
         let (tr, n) = (&texts, slots_all.len() as u64);
-        sweep(ctx, "names: blank and invisible characters at the ends and around the cut", n * texts.len() as u64, "14 characters (space, tab, line feed, NBSP, EM SPACE, IDEOGRAPHIC SPACE, ZWSP, ZWJ, BOM, full stop, slash, NUL, DEL, NEL) at the end, at the start, at both ends and at every offset 58..=66 (single and doubled) of names of 56..=72 bytes, every name member", move |idx, l| {
+        sweep(ctx, "names: blank and invisible characters at the ends and around the cut", n * texts.len() as u64, "20 marks (space, tab, LF, CR, CR LF, LF CR, NBSP, EM SPACE, IDEOGRAPHIC SPACE, ZWSP, ZWJ, BOM, full stop, slash, NUL, DEL, NEL, ESC [, backslash n, percent 0) at the end, at the start, at both ends and at every offset 58..=66 (single and doubled) of names of 56..=72 bytes, every name member", move |idx, l| {
             let slot = slots_all[(idx % n) as usize];
             let s = &tr[(idx / n) as usize];
             let seed = &sr[slot.seed];
@@ -203,6 +203,47 @@ pub fn run(ctx: &'static Ctx) {
             let v = compare(P, &seed.target, &wire);
             if !v.ok {
                 l.fail(ctx, idx, v, || case_json(&seed.target, &wire, json!({"member": slot.name, "text": s.escape_unicode().to_string()})));
+            }
+        });
+    }
+
+    // (1d) name and displayName together: both over-long, every pair of short windows at every pair
+    // of offsets around the cut, total lengths equal and different by 0..=2 (each member is cut on
+    // its own boundary, whatever the other one looks like)
+    {
+        let small = windows(4);
+        let user_t = Target::Alone("user");
+        let mut cases: Vec<(usize, usize, usize, usize, usize)> = Vec::new(); // (w1, w2, p1, p2, extra)
+        for w1 in 0..small.len() {
+            for w2 in 0..small.len() {
+                for p1 in 60..=64usize {
+                    for p2 in 60..=64usize {
+                        for extra in 0..=2usize {
+                            cases.push((w1, w2, p1, p2, extra));
+                        }
+                    }
+                }
+            }
+        }
+        let (cr, sm, ut) = (&cases, &small, &user_t);
+        sweep(ctx, "names: name x displayName, both over-long", cases.len() as u64, "stand-alone user entity: name = x^p1 . w1 . y*, displayName = x^p2 . w2 . y* padded to 72 and 72 + {0, 1, 2} bytes, every pair of character windows of <= 4 bytes, p1, p2 in 60..=64", move |idx, l| {
+            let (w1, w2, p1, p2, extra) = cr[idx as usize];
+            let mk = |p: usize, w: &str, total: usize| {
+                let mut t = "x".repeat(p);
+                t.push_str(w);
+                while t.len() < total {
+                    t.push('y');
+                }
+                t
+            };
+            let name = mk(p1, &sm[w1], 72);
+            let dn = mk(p2, &sm[w2], 72 + extra);
+            let wire = V::M(vec![(V::t("id"), V::B(vec![1, 2, 3])), (V::t("name"), V::t(&name)), (V::t("displayName"), V::t(&dn))]);
+            l.nontrivial += 1;
+            l.bump("name longer than 64 bytes");
+            let v = compare(P, ut, &wire);
+            if !v.ok {
+                l.fail(ctx, idx, v, || case_json(ut, &wire, json!({"name": name.escape_unicode().to_string(), "displayName": dn.escape_unicode().to_string()})));
             }
         });
     }
